@@ -276,6 +276,10 @@ def _scenarios(prop, tier, seed=0):
         L.append(S15('c15_p1_future_panic', [T('A', ('future_desync', 0, {'fut': 'wake_panic', 'as': 'f'}), ('detach', 'f')), T('Y', ('desync', 1), after=['A', 'P0']),
                                              T('Z', ('try_sync', 0, {'must_panic': True}), final=True, after=['A', 'P0', 'Y'])],
                      ['pool', 'Z'], pool_max=1, pool_slots=2, queues=2, R=3, B=16))
+        # the job is a future that panics while the task awaiting it polls it (the poll claimed the queue: the polling task is the runner)
+        L.append(S15('c15_p0_poll_panic', [T('A', ('future_desync', 0, {'fut': 'panic', 'as': 'f'}), ('block_on', 'f')), T('Y', ('sync', 1), final=True, after=['A']),
+                                           T('Z', ('desync', 0, {'must_panic': True}), final=True, after=['A'])],
+                     ['A', 'Z'], pool_max=0, queues=2, R=2, B=20))
         if not q:
             L.append(S15('c15_p1_future_panic_nowake', [T('A', ('future_desync', 0, {'fut': 'panic', 'as': 'f'}), ('detach', 'f')), T('Y', ('desync', 1), after=['A', 'P0']),
                                                         T('Z', ('sync', 0, {'must_panic': True}), final=True, after=['A', 'P0', 'Y'])],
@@ -302,6 +306,15 @@ def _scenarios(prop, tier, seed=0):
                    pool_max=1, queues=0, setup='A!', R=(2 if q else 3), B=40, oracles=OR11))
         L.append(S('c11_p1_item_and_sync_su', [T('A', ('p_new', 'x'), ('pipe_in', 'x', {'gates': [99, 0], 'ends': False}), ('wait_gate', 5), ('d_sync', 'x')), T('W', ('open_gate', 5), ('open_gate', 0))],
                    pool_max=1, queues=0, setup='A!', R=(2 if q else 3), B=30, oracles=OR11))
+        # chained pipes: the processing closure of pipe 0 owns the sending half of the channel that feeds pipe 1, so releasing pipe 0's closure is a
+        # stream event of pipe 1; both Desyncs are gone when the first event arrives (the releases run on the shared disposal queue)
+        L.append(S('c11_p1_chained_su', [T('A', ('p_new', 'x'), ('p_new', 'y'), ('pipe_in', 'x', {'gates': [0], 'ends': False, 'drop_opens': 1}), ('pipe_in', 'y', {'gates': [1], 'ends': False}),
+                                              ('p_drop', 'x'), ('p_drop', 'y')), T('W', ('open_gate', 0))], pool_max=1, queues=0, setup='A!', R=2, B=34, oracles=OR11))
+        # no pool thread: pipe_in's initial poll runs on the caller (inside its sync), the item's arrival and wake-up race it from the start (no
+        # set-up prefix); a final sync by the caller runs whatever poll job the wake-up queued, so that every arrived item must have been
+        # processed at quiescence
+        L.append(S('c11_p0_one_item_race', [T('A', ('p_new', 'x'), ('pipe_in', 'x', {'gates': [0], 'ends': True}), ('wait_gate', 5), ('d_sync', 'x')), T('W', ('open_gate', 0), ('open_gate', 5))],
+                   pool_max=0, queues=0, R=2, B=34, oracles=OR11))
         if not q:
             L.append(S('c11_p1_one_item', [T('A', ('p_new', 'x'), ('pipe_in', 'x', {'gates': [0], 'ends': True})), T('W', ('open_gate', 0))],
                        pool_max=1, queues=0, R=2, B=30, oracles=OR11))
